@@ -36,6 +36,9 @@ pub fn campaign_with(ctx: &Ctx, target: &str, mode: &str, seeds: &[Vec<u8>], run
         .arg("-len_control=0")
         .arg(format!("-max_total_time={max_time_s}"))
         .arg("-print_final_stats=1")
+        .arg("-detect_leaks=0")
+        .arg("-rss_limit_mb=6000")
+        .arg("-timeout=120")
         .arg(format!("-artifact_prefix={}/", art.display()))
         .env("CARGO_NET_OFFLINE", "true")
         .env("SCCV_FUZZ_MODE", mode)
@@ -54,6 +57,12 @@ pub fn campaign_with(ctx: &Ctx, target: &str, mode: &str, seeds: &[Vec<u8>], run
         let mut files: Vec<_> = rd.flatten().map(|e| e.path()).collect();
         files.sort();
         for f in files {
+            // only crashes of the target count; slow-unit-/oom-/timeout-/leak- files say nothing
+            // about the property
+            let name = f.file_name().map(|n| n.to_string_lossy().into_owned()).unwrap_or_default();
+            if !name.starts_with("crash-") {
+                continue;
+            }
             if let Ok(b) = std::fs::read(&f) {
                 artifacts.push(b);
             }
@@ -103,6 +112,10 @@ pub fn semantic_phase(
                         report.violations.push(write_replay(ctx, sub, a, f));
                     }
                 } else {
+                    // keep it for inspection (replays/ is not committed)
+                    let dir = ctx.root.join("replays").join(&ctx.id);
+                    let _ = std::fs::create_dir_all(&dir);
+                    let _ = std::fs::write(dir.join(format!("unconfirmed-{}-{:016x}.bin", mode.replace('@', "_"), hash_str(&format!("{a:?}")))), a);
                     report.infra_errors.push(format!("libFuzzer ({mode}) saved an input that the in-process oracle does not reproduce"));
                 }
             }
